@@ -94,6 +94,11 @@ def run(check, prog):
     # shared with C07)
     from . import c07
     c07.subset(check, prog)
+    # `all models` includes a model that came back from a file (every parallel
+    # worker's does): it must be rebuilt from every key the writer stored, its
+    # constraints included (rule shared with C15)
+    from . import c15
+    c15.r5_model(check, prog)
 
 
 def model_constructor_wiring(check, prog):
